@@ -185,6 +185,16 @@ def run_verus_unit_once(unit, work, seed, force, rlimit=None):
             if ufn and not d.get('code') and re.search(r'not supported|does not yet support|not yet supported|unsupported', msg) and ufn not in force:
                 unsupported_fns.append(ufn)
                 continue
+            # the proof text woven into a function (hints, loop clauses) no longer compiles against its changed body
+            # (renamed local, restructured statement): that body is undecided -> retried as external_body, contract kept
+            cfn = None
+            for sp in d['spans']:
+                idx = sp['line_start'] - 1
+                if 0 <= idx < len(linemap) and linemap[idx].get('fn'):
+                    cfn = linemap[idx]['fn']
+            if cfn and d.get('code') and cfn not in force:
+                unsupported_fns.append(cfn)
+                continue
             tool_errors.append("%s @ %s" % (msg, [(s['line_start']) for s in d['spans']][:2]))
             continue
         prim = [s for s in d['spans'] if s['is_primary']]
